@@ -27,6 +27,17 @@ type Env struct {
 	post   bool // translating a postcondition: parameters denote entry values
 	cur    *State // under pre(): the real current state, in which local variables are read
 	freshBase string // allocation counter before the call / at function entry (for fresh())
+	hint   *hintCtx // inside the by-block of a function clause: where `assert` obligations go
+}
+
+// hintCtx: an `assert e` inside the by-block of a requires/ensures/invariant clause is proved as an obligation of its
+// own (kind ASSERT) in the state the clause is proved in, under the guards of the enclosing ifs, and is then available
+// as a hypothesis for the clause.
+type hintCtx struct {
+	st     *State
+	site   string
+	n      *int
+	guards []string
 }
 
 func (e *Env) child() *Env {
